@@ -1,4 +1,4 @@
-(* GENERATED on every run by harness/props/c07.py from /tmp/seed_C12_4 - do not edit *)
+(* GENERATED on every run by harness/props/c07.py from /repo - do not edit *)
 From Coq Require Import List String.
 Import ListNotations.
 Open Scope string_scope.
